@@ -185,6 +185,9 @@ func (c08Engine) Gen(r *core.Rand, tier string, i int) any {
 	if len(sep) > 1 {
 		alpha = append(alpha, sep[:1], sep[1:])
 	}
+	if r.Chance(1, 4) {
+		alpha = append(alpha, "\xef\xbb\xbf") // U+FEFF as data: only a *leading* one is a byte-order mark
+	}
 	enumMax := 8
 	if tier == "thorough" {
 		enumMax = 12
@@ -446,7 +449,11 @@ func (e c08Engine) Run(scAny any, keep bool) core.Outcome {
 		}
 		return out
 	}
-	ref, refErr := c08Reference(sc, []byte(sc.Data))
+	refData := []byte(sc.Data)
+	if !sc.BOM && bytes.HasPrefix(refData, []byte{0xEF, 0xBB, 0xBF}) {
+		refData = refData[3:] // the data itself begins with a byte-order mark
+	}
+	ref, refErr := c08Reference(sc, refData)
 	// header name to look up with @name: the first name that is unique in the header
 	nm := ""
 	if sc.Header && len(ref) > 0 {
